@@ -554,7 +554,7 @@ class C06(Prop):
                   "mapping nodes, string counters with saturation and the in-place decisions that read them, free_call / free_sentence / "
                   "dealloc_funp, destruct_object / destruct2, call_out() including callbacks that raise an error or destruct their "
                   "object, input_to / get_char, program_t.ref with clone / inherit / blueprint references (reference_prog, free_prog, "
-                  "deallocate_program), replace_programs()) for all sequences of primitives: counter = number of holders, nothing "
+                  "deallocate_program), replace_programs(), reclaim_objects()) for all sequences of primitives: counter = number of holders, nothing "
                   "freed while held, no dangling pointer anywhere, unreferenced values deallocated, statistics exact; tied to the "
                   "source by the regenerated widths, counter updates and holder sites and by running the real functions (unit style) "
                   "and the real interpreter (LPC style) and the model on the same generated histories with identical per-value "
@@ -577,7 +577,8 @@ class C06(Prop):
             "arguments, owners destructed while call_outs / sentences / an input_to are pending (dropped by the sweep, "
             "refused by the input), "
             "callbacks that raise an error or destruct their own object, clones / blueprint unloading / inherit references of "
-            "programs, replace_program() over four variable layouts, "
+            "programs, replace_program() over four variable layouts, reclaim_objects() with destructed objects in variables / arrays / "
+            "classes / mapping keys and values / function pointer arguments, a callback that installs a new input_to, "
             "destruct + deferred cleanup, errors thrown under live frames, 47 efun/operator groups with results dropped, an error "
             "injected at the k-th instruction (or at every instruction in turn) of 69 efun groups and of restore_variable, "
             "25 'value builder aborted half-way' groups (callbacks of map/filter/sort/unique/implode raising after k calls, "
